@@ -414,6 +414,33 @@ RULE = ("a case = an environment script (connects, byte arrivals, faults, stream
         "hash of the script; non-trivial = at least two byte arrivals")
 
 
+# ---------------------------------------------------------------- production buffer limit (no hook cfg)
+def run_nohook(ck, cases):
+    """Run cases on the server harness built WITHOUT `--cfg zlink_verif` (production MAX_BUFFER_SIZE), for
+    inputs far above the hook-lowered limit.  No Coq evaluation here (sizes): the caller compares results."""
+    import os
+    from vlib import sh, harness_root
+    root = harness_root()
+    rc, log = sh("cargo build --offline --bin server --target-dir %s" % os.path.join(root, "target-nohook"),
+                 timeout=1500, cwd=root, env={"RUSTFLAGS": ""})
+    if rc != 0:
+        ck.violation("server harness does not build without the hook cfg", {"log": log[-3000:]}, tag="build-nohook",
+                     no_input=True)
+        return None
+    for i, c in enumerate(cases):
+        c["id"] = i
+    return ck.harness_run(os.path.join(root, "target-nohook", "debug", "server"), cases, shards=8)
+
+
+def big_call(c, t, total, v=1):
+    """A valid Echo call whose frame INCLUDING its terminator is exactly `total` bytes long."""
+    head = b'{"method":"org.zv.Echo","parameters":{"c":%d,"t":%d,"v":%d,"pad":"' % (c, t, v)
+    tail = b'"}}'
+    n = total - 1 - len(head) - len(tail)
+    assert n >= 0
+    return head + b"x" * n + tail
+
+
 # ---------------------------------------------------------------- mutation self-test (not run by the checks)
 # Property-breaking edits of /repo's server sources that compile and pass the 185 baseline tests; each
 # was detected by the relevant check (VIOLATION with a replay) when the harness was built against it
